@@ -106,11 +106,15 @@ theorem peerfin_sends_nothing (s : St) : (step s .peerfin).1.sentR = s.sentR ∧
     simp only [List.mem_cons, List.mem_singleton, List.not_mem_nil, or_false] at he
     rcases he with rfl | rfl <;> intro hx <;> cases hx
 
-/-- non-vacuity: a ring with pending bytes and a socket that takes them 1 and 2 bytes at a time -/
-example : (step (run [] [.write false [104, 105, 10], .sendres [.acc 0, .acc 1]]).1 .close).1.sentR.reverse
-    = [104, 105, 13, 10] := by decide
-
-/-- and with a refusing socket nothing is delivered at close: the pending bytes are the lost suffix -/
-example : (step (run [] [.write false [104, 105, 10], .sendres [.wouldBlock]]).1 .close).1.sentR.reverse = [] := by decide
+/-- non-vacuity: the hypotheses hold for a ring with one pending byte and a socket that accepts one byte at a time -/
+example : (step (put (St.init [.acc 0]) 65) .close).1.sentR.reverse
+    = (put (St.init [.acc 0]) 65).sentR.reverse ++ contents (put (St.init [.acc 0]) 65) := by
+  have hi : Inv (put (St.init [.acc 0]) 65) := put_inv (init_inv _) (by decide) 65
+  refine close_delivers_all_when_socket_accepts _ hi ?_ ?_
+  · rw [put_eq (init_inv _)]; rfl
+  · rw [put_eq (init_inv _)]
+    intro r hr
+    have : r = SendRes.acc 0 := by simpa [St.init] using hr
+    exact ⟨0, this⟩
 
 end NV.C14
